@@ -109,7 +109,7 @@ pub fn profile(name: &str) -> Profile {
             rounds: (1, 3),
             ops_per_round: (3, 14),
             multi_index: 0.1,
-            dims: &[1, 2, 3, 5, 17, 40],
+            dims: &[1, 2, 3, 5, 17, 31, 32, 33, 40, 48, 57, 64, 95, 130],
             p_commit: 0.2,
             p_abort: 0.0,
             ..base
